@@ -35,6 +35,24 @@ CHECKS["C14"] = dict(
     engine="tlc+replay",
 )
 
+_MERGE_NOTE = "One MODULE per file; module graphs are extracted from the Debug rendering of the real objects through the hand-classified reference-site table (tools/graphmodel.py; generation fails if an ident-typed field of the frozen grammar is unclassified); content identities unique except deliberate twins; lenient readings listed in the evidence assumptions. Trusts TLC and the 300-line renderer/extractor."
+CHECKS["C08"] = dict(
+    category="model_checking",
+    text="Graph.tla states C08 as a relation MergeOK(A, B, R) between module graphs (A unchanged, every named element of B represented exactly once under its own or a fresh name, names unique per namespace, nothing invented). TLC enumerates one abstract case per reference site x overlap pattern (identical twin, same name/other content, other kind of the same namespace, homonym in another namespace, pre-existing .MERGE names, conflicting owner, GROUP/FUNCTION union; 3034 cases) and checks the reference merge against the relation; every case plus seeded random module pairs is rendered to A2L, merged by the real merge_modules, and the graphs extracted from the real objects are judged by the same relation in TLC.",
+    design_ref="DESIGN.md §4.4, §6 C08",
+    note=_MERGE_NOTE,
+    technique="TLA+ relation (Graph.tla MergeOK) + TLC-generated cases (MC_Merge) executed on the real merge and validated by TLC (Trace_Graph)",
+    engine="tlc+replay",
+)
+CHECKS["C09"] = dict(
+    category="model_checking",
+    text="Graph.tla states C09 as the relation RefsFollow(A, B, R): every reference held by an element added from B designates the representative of its original target, at every one of the 60 reference sites of the grammar (site table generated from a hand classification with a completeness gate over the frozen grammar), and resolved references stay resolved. TLC generates a case for every site x overlap pattern x kind combination and checks the reference merge (and an expected-violation configuration with one site left out); every case and seeded random module pairs run through the real merge_modules and the extracted graphs are judged by TLC.",
+    design_ref="DESIGN.md §4.4, §6 C09, Appendix A",
+    note=_MERGE_NOTE,
+    technique="TLA+ relation (Graph.tla RefsFollow) over a site-exhaustive TLC-generated case set, executed on the real merge and validated by TLC (Trace_Graph)",
+    engine="tlc+replay",
+)
+
 PENDING = "check not built yet in this round; planned per DESIGN.md §6 (no claim made until the TLA+ module and its binding exist)"
 NOT_APPLICABLE = {}
 
